@@ -337,4 +337,54 @@ theorem step_paid (s : State) (op : Op) (hA : AllInv s) (hwf : op.userSigned')
     cases hgp0
     rw [hun] at hs'; cases hs'
 
+/-- what a witnessed payment says, over the bets `bets` of the market `u` -/
+theorem ret_paidAt_exact {bets : List Bet} {mks : List Market} {u : Nat} {p p' : Part} (h : PaidAt bets mks u p p') :
+    ∃ (t : State) (bk : Book) (m : Market) (r : State × Book),
+      t.bets = bets ∧ t.markets = mks ∧ getMarket t u = some m ∧ settlePart t bk p m = some r ∧ p' = p.paidRec m ∧
+      (∀ x ∈ bets, x.market = u → x.status = BS_SETTLED) ∧ isResolvedStatus m.status = true ∧
+      p.actualProfit = lostStakes bets u p.idx - wonProfits bets u p.idx ∧
+      p.payout m = payAmount bets u m p ∧
+      (p.feeToDepositor m = true ↔ (m.status ≠ MS_DECLARED ∨ backedStake bets u p.idx = 0)) ∧
+      (∀ a, getBal r.1.bal a = getBal t.bal a
+        + (if a = p.addr then payAmount bets u m p else 0) + (if a = feeDest p m then p.fee else 0)
+        - (if a = ACC_POOL then payAmount bets u m p else 0) - (if a = ACC_HOUSEFEE then p.fee else 0)) ∧
+      p.isSettled = false ∧ (m.status ≠ MS_DECLARED → p.actualProfit = 0) := by
+  obtain ⟨t, b0, bk, m, r, hP, hbets, hmks, hb0, hu, hres, hp, hm, hcall, hrec⟩ := h
+  subst hu
+  have hna : b0.status ≠ OB_ACTIVE := by rw [hres]; decide
+  obtain ⟨c1, c2, c3, c4, c5, c6, _⟩ := ret_pay_exact hP hb0 hna hp hm hcall
+  have hgp : b0.getPart p.idx = some p := Book.mem_getPart (hP.ob.qinv b0 hb0).s.sP hp
+  have hprof : p.actualProfit = lostStakes t.bets b0.uid p.idx - wonProfits t.bets b0.uid p.idx := by
+    rw [hP.ret.prof b0 hb0 p.idx p hgp, ret_real_all_settled t.bets b0.uid p.idx c1]
+  have hz : m.status ≠ MS_DECLARED → p.actualProfit = 0 := by
+    intro hnd
+    by_cases e : p.actualProfit = 0
+    · exact e
+    · obtain ⟨m', hm', hd⟩ := hP.sinv.profitDeclared b0 hb0 p hp e
+      rw [hm] at hm'
+      cases hm'
+      exact absurd hd hnd
+  rw [hbets] at c1 c3 c4 c5 hprof
+  exact ⟨t, bk, m, r, hbets, hmks, hm, hcall, hrec, c1, c2, hprof, c3, c4, c5, c6, hz⟩
+
+-- ---------------------------------------------------------------------------------------------
+-- histories
+
+theorem run_keepsPaid (s : State) (ops : List Op) (hA : AllInv s) (hwf : ∀ op ∈ ops, op.userSigned') :
+    Keeps s (run s ops) := by
+  induction ops generalizing s with
+  | nil => exact Keeps.refl s
+  | cons op rest ih =>
+    have h1 := step_keeps s op hA
+    have hA1 := step_allInv s op hA (hwf op (List.mem_cons_self ..))
+    exact h1.trans (ih _ hA1 (fun o ho => hwf o (List.mem_cons_of_mem _ ho)))
+
+theorem run_paidInv (s : State) (ops : List Op) (hA : AllInv s) (hP : PaidInv s) (hwf : ∀ op ∈ ops, op.userSigned') :
+    PaidInv (run s ops) := by
+  induction ops generalizing s with
+  | nil => exact hP
+  | cons op rest ih =>
+    have hw := hwf op (List.mem_cons_self ..)
+    exact ih _ (step_allInv s op hA hw) (step_paidInv s op hA hw hP) (fun o ho => hwf o (List.mem_cons_of_mem _ ho))
+
 end Sge.Core
